@@ -90,7 +90,7 @@ pub fn universes_for(opts: &Opts) -> Vec<String> {
         // alignment units above the 64 bytes that the file loaders support: in-memory properties only
         v.push("wide".to_string());
     }
-    if opts.prop == "C07" {
+    if opts.prop == "C07" || opts.prop == "C18" {
         // ranges over index types of odd size: see the known finding O14
         v.push("odd".to_string());
     }
